@@ -557,7 +557,7 @@ def splice(body, sections, fname):
                 # The names must be exactly the ones in the source, in order.
                 hdr = body[closures[k][0]:closures[k][1]]
                 src_names = [x.split(":")[0].strip() for x in hdr.strip("|").split(",")]
-                new_names = [x.split(":")[0].strip() for x in params.split(",")]
+                new_names = [x.split(":")[0].strip() for x in split_top_commas(params)]
                 if src_names != new_names:
                     raise ExtractError("%s: closure %d parameters are %r, contract expects %r" % (fname, k, src_names, new_names))
                 replaces.append((closures[k][0], closures[k][1], "|" + params + "|"))
@@ -652,13 +652,31 @@ def name_return(sig, rname):
 
 
 # ------------------------------------------------------------------------------------ templates
+def split_top_commas(text):
+    """split at commas that are not nested in (), [], <> or {}"""
+    out, depth, cur = [], 0, ""
+    for ch in text:
+        if ch in "([{<":
+            depth += 1
+        elif ch in ")]}>":
+            depth -= 1
+        if ch == "," and depth == 0:
+            out.append(cur)
+            cur = ""
+        else:
+            cur += ch
+    if cur.strip():
+        out.append(cur)
+    return out
+
+
 def parse_block(lines):
     """lines: the `//@ ...` lines between //@fn and //@end (without the `//@` prefix)."""
     sections = []
     spec = []
     cur = None
     for ln in lines:
-        m = re.match(r"^\s*(spec|loop \d+(?: iter \w+)?|closure \d+(?: params \([^)]*\))?|hint [^:]*?):\s?(.*)$", ln)
+        m = re.match(r"^\s*(spec|loop \d+(?: iter \w+)?|closure \d+(?: params \(.*?\)(?=:(?:\s|$)))?|hint [^:]*?):\s?(.*)$", ln)
         starts_new = False
         if m:
             head = m.group(1)
@@ -676,7 +694,7 @@ def parse_block(lines):
                 hp = head.split()
                 cur = ("loop", hp[1] + ("|" + hp[3] if len(hp) > 3 else ""), [rest])
             elif head.startswith("closure"):
-                pm = re.search(r"params \(([^)]*)\)", head)
+                pm = re.search(r"params \((.*)\)$", head)
                 cur = ("closure", head.split()[1] + ("|" + pm.group(1) if pm else ""), [rest])
             else:
                 cur = ("hint", head[5:].strip(), [rest])
